@@ -125,6 +125,7 @@ def _make_pred(name, script, world):
         value = bool(script[count]) if count < len(script) else False
         world.rec('pred', label(self), name, value)
         self.ctx.simtrace.append(f'?{name}={int(value)}')
+        world.site(self, f'pred:{name}')
         return value
 
     fn.__name__ = name
